@@ -333,7 +333,10 @@ func run(c *core.Ctx) {
 		if (i-1)%nShards != shard || c.Expired() {
 			return
 		}
-		caseNo, _ := c.Begin()
+		caseNo, run := c.Begin()
+		if c.Skip(caseNo, run, Input{G: g}) {
+			return
+		}
 		c.StateN(1)
 		if !g.cyclic() && g.Undef < 0 {
 			c.NontrivialN(1)
